@@ -121,6 +121,43 @@ def _indep(torch, o, p, S, get, xs, tag, seed):
     p(*xs)
 
 
+def _observer_oracle(torch, o, p, gets, xs, alpha_named):
+    """the gradient sentences after observer calls: forward -> export() / summary() / get_cost -> cost -> autograd.grad
+    w.r.t. the NAS coefficients WITHOUT a forward in between: same value, same (finite, non-zero) gradients as right
+    after the forward pass"""
+    o['observer_raised'] = []
+    for obs in ('export', 'summary', 'get_cost', 'export+summary'):
+        p.train()
+        p(*xs)
+        try:
+            if 'export' in obs:
+                p.export()
+            if 'summary' in obs:
+                p.summary()
+            if obs == 'get_cost':
+                for g in gets.values():
+                    float(g())
+        except Exception as ex:            # whether export()/summary() succeed is not this property's sentence
+            o['observer_raised'].append('%s: %s: %s' % (obs, type(ex).__name__, str(ex)[:120]))
+            continue
+        for which, get in gets.items():
+            S = o['specs'][which]
+            c = get()
+            if not close(float(c), Fraction(S['value']), 2.0 ** -20):
+                o['fails'].append(('cost-changes-after-observer:%s:%s' % (obs, which), {'after_forward': S['value'], 'after_observer': float(c)}))
+            gn = _grads(torch, c, alpha_named)
+            for n, _ in alpha_named:
+                g0, g1 = S['grad'][n], gn[n]
+                if g0 is None or not any(g0):
+                    continue
+                scale = max(abs(v) for v in g0)
+                if g1 is None or any(not math.isfinite(v) for v in g1) or any(abs(a - b) > 2.0 ** -12 * scale for a, b in zip(g0, g1)):
+                    o['fails'].append(('gradient-lost-after-observer:%s:%s' % (obs, which), {'param': n, 'cost_requires_grad': bool(c.requires_grad), 'grad_after_forward': g0[:6], 'grad_after_observer': None if g1 is None else g1[:6]}))
+                    break
+    p.train()
+    p(*xs)
+
+
 # ----------------------------------------------------------------------------- SuperNet
 def _sn_specs():
     from plinio.cost import params, ops, params_no_bias, ops_no_bias, gap8_latency
@@ -196,6 +233,14 @@ def sn_case(torch, seed, mname, full_cost):
         stage = 'independence'
         for which in names:
             _indep(torch, o, p, o['specs'][which], lambda: p.get_cost(which), xs, which, seed)
+        stage = 'order'
+        for order in (list(reversed(names)), names[2:] + names[:2]):
+            for which in order:
+                c2 = float(p.get_cost(which))
+                if not close(c2, Fraction(o['specs'][which]['value']), 2.0 ** -22):
+                    o['fails'].append(('cost-depends-on-evaluation-order:' + which, {'first_read': o['specs'][which]['value'], 'read_in_order': order, 'value': c2}))
+        stage = 'observers'
+        _observer_oracle(torch, o, p, {w: (lambda w=w: p.get_cost(w)) for w in names}, xs, coeffs)
     except Exception as ex:
         o['fails'].append(('exception:SuperNet:' + stage.split(':')[0], '%s: %s' % (type(ex).__name__, str(ex)[:300])))
         o['trace'] = traceback.format_exc()[-1500:]
@@ -294,6 +339,8 @@ def mps_case(torch, seed, mname, per_channel):
         stage = 'independence'
         for which in names:
             _indep(torch, o, p, o['specs'][which], lambda: p.get_cost(which), xs, which, seed)
+        stage = 'observers'
+        _observer_oracle(torch, o, p, {w: (lambda w=w: p.get_cost(w)) for w in names}, xs, al(p))
     except Exception as ex:
         o['fails'].append(('exception:MPS:' + stage.split(':')[0], '%s: %s' % (type(ex).__name__, str(ex)[:300])))
         o['trace'] = traceback.format_exc()[-1500:]
@@ -344,6 +391,8 @@ def odimo_case(torch, seed, mname, as_dict):
         o['specs']['diana_latency'] = S
         stage = 'independence'
         _indep(torch, o, p, S, get, xs, 'diana_latency', seed)
+        stage = 'observers'
+        _observer_oracle(torch, o, p, {'diana_latency': get}, xs, al(p))
     except Exception as ex:
         o['fails'].append(('exception:ODiMO_MPS-default-cost:' + stage, '%s: %s' % (type(ex).__name__, str(ex)[:300])))
         o['trace'] = traceback.format_exc()[-1500:]
